@@ -56,4 +56,19 @@ Print Assumptions C04_arrival_law.
 Theorem C04_recv_ge_sent : forall (G : cfg) (h : nat -> list tok) (c j k : nat) (out : Z), nth_error (h (TsOut G c)) j = Some (TTsOut k out) -> 0 <= stream (c_delays (conn G c)) j -> out <= recv_at G h c j.
 Proof. exact @recv_ge_sent. Qed.
 Print Assumptions C04_recv_ge_sent.
+From Coq Require Import QArith.
+From Rex Require Import Lattice.
+(* the 1/64 s lattice the models live on: a lattice time has at most six decimals (k/64 * 10^6 is the integer 15625 k), so round(x, 6) - which the runtime applies to every timestamp - returns x itself there *)
+Theorem C04_lattice_six_decimals : forall k : Z, tick k * 1000000 == inject_Z (k * 15625).
+Proof. exact @lattice_six_decimals. Qed.
+Print Assumptions C04_lattice_six_decimals.
 
+(* scheduled times k * period + phase of lattice quantities are lattice times *)
+Theorem C04_lattice_schedule : forall k P ph : Z, inject_Z k * tick P + tick ph == tick (k * P + ph).
+Proof. exact @lattice_schedule. Qed.
+Print Assumptions C04_lattice_schedule.
+
+(* and so is the maximum the start law takes *)
+Theorem C04_lattice_max : forall a b : Z, qmax (tick a) (tick b) == tick (Z.max a b).
+Proof. exact @lattice_max. Qed.
+Print Assumptions C04_lattice_max.
